@@ -112,6 +112,14 @@ CLAIMED = {
             "For every called method, --llm-nav --target=<name> must list exactly the model's multiset of (row, enclosing method, class), the matching total, and only callees written in the body. Exploration.",
             "Known finding: implicit-receiver calls between instance methods of a class are not recorded.",
             "DESIGN.md §4 C24"),
+    "C25": ("property-based testing (Hypothesis: generated RBS-AST JSON documents fed through a stand-in ruby) with a repeated-run differential, a shape model of the documented argument order/type mapping, and an arity oracle through ti on the emitted configuration",
+            "Generated-input search; k conversions must be byte-identical, every overload's arguments must follow required/optional/rest/trailing/required-keyword/optional-keyword order with the mapped types, and calls with 0..6 positionals must be accepted exactly within the RBS arity. Exploration.",
+            "The stand-in replaces only the RBS parser. Arity is asserted for single-overload methods with uniformly typed parameters.",
+            "DESIGN.md §4 C25"),
+    "C26": ("property-based testing (Hypothesis: generated C binding sources with MRB_ARGS specs, mrb_get_args formats and GET_*_ARG/argc patterns) with a ground-truth arity computed by the generator; differential for determinism",
+            "Generated-input search; two conversions byte-identical; with the emitted JSON as configuration, Cbind.m(k args) for k = 0..6 has no diagnostic exactly when the C binding accepts k. Exploration.",
+            "The C text is only read by the converter's regular expressions. Known finding: OPT+REST+POST with too few arguments (same root as C07's).",
+            "DESIGN.md §4 C26"),
 }
 
 PENDING_REASON = "check not built yet in this round (planned in DESIGN.md §3.11); no claim is made"
